@@ -154,6 +154,13 @@ pub struct Scripted<K: Kit> {
     pub log: RefCell<Vec<(u64, K::S)>>,
     /// index (into the calls) of every sample call's seq, for ordering against other callbacks
     pub call_seqs: RefCell<Vec<u64>>,
+    /// what happens when the script runs out: false = unwind with `ScriptExhausted`; true = expire
+    /// the logical deadline and keep answering with the last scripted letter (a planner that draws
+    /// more samples per deadline check than the script assumed then still ends its call, and its
+    /// behaviour is judged from the sample log)
+    pub expire_when_exhausted: Cell<bool>,
+    /// samples served after the script had run out
+    pub overdrawn: Cell<usize>,
 }
 
 impl<K: Kit> Scripted<K> {
@@ -169,6 +176,8 @@ impl<K: Kit> Scripted<K> {
             log_on: Cell::new(false),
             log: RefCell::new(Vec::new()),
             call_seqs: RefCell::new(Vec::new()),
+            expire_when_exhausted: Cell::new(false),
+            overdrawn: Cell::new(0),
         }
     }
     pub fn push_script(&self, s: &[u8]) {
@@ -212,11 +221,19 @@ impl<K: Kit> StateSpace for Scripted<K> {
                 let p = self.pos.get();
                 let sc = self.script.borrow();
                 if p >= sc.len() {
-                    drop(sc);
-                    std::panic::panic_any(ScriptExhausted("uniform"));
+                    if !self.expire_when_exhausted.get() {
+                        drop(sc);
+                        std::panic::panic_any(ScriptExhausted("uniform"));
+                    }
+                    // far past any deadline the harness ever sets
+                    oxmpl::verif::clock_advance(1u64 << 60);
+                    self.overdrawn.set(self.overdrawn.get() + 1);
+                    let l = sc.last().copied().unwrap_or(0);
+                    self.alphabet[l as usize].clone()
+                } else {
+                    self.pos.set(p + 1);
+                    self.alphabet[sc[p] as usize].clone()
                 }
-                self.pos.set(p + 1);
-                self.alphabet[sc[p] as usize].clone()
             }
             SampleMode::PassThrough => self.inner.sample_uniform(rng)?,
         };
